@@ -325,6 +325,7 @@ class FakeProxy:
         self.world = world
         self._pyroConnection = None
         self._pyroSeq = seq0
+        self._pyroMaxRetries = 0       # Proxy.__init__: config.MAX_RETRIES (default 0); c10_retry.py varies it
         self.lose_next = False
 
     def _prepare(self):
@@ -843,8 +844,9 @@ def correspondence(ctx):
     """C and D in one loop: every generated history / explored schedule is executed once on the real code; its canonical
     output is compared with the model (C) and judged against the property by the model-independent checks (D)."""
     common.repo_on_path()
-    from props import c10_race, c10_wire
+    from props import c10_race, c10_wire, c10_retry
     _histories(ctx, ctx.n(2500, 60000))
+    c10_retry.retry_faults(ctx, ctx.n(600, 8000))
     c10_race.interleavings(ctx, corr=True)
     c10_wire.wire(ctx, ctx.n(120, 4000))
     ctx._c10_judged = True
@@ -856,6 +858,8 @@ def oracle(ctx):
     if not getattr(ctx, "_c10_judged", False) or ctx.search_mode:
         # the model did not build (no correspondence run), or something is broken: judge the real code on its own
         _histories(ctx, ctx.n(1500, 20000), judge_only=True)
+        from props import c10_retry
+        c10_retry.retry_faults(ctx, ctx.n(600, 8000))
         c10_race.interleavings(ctx, corr=False)
         c10_wire.wire(ctx, ctx.n(120, 4000))
         ctx._c10_judged = True
@@ -876,6 +880,9 @@ def replay(ctx, case):
             return 1 if fails else 0
         finally:
             restore()
+    if c.get("kind") == "retry":
+        from props import c10_retry
+        return c10_retry.replay_case(c)
     if c.get("kind") == "race":
         return c10_race.replay_case(c)
     if c.get("kind") == "wire":
